@@ -5,6 +5,16 @@ import random
 import sys
 
 from .. import core
+from . import big
+
+# static_integer / static_number products and quotients beyond the 256-bit lock-step oracle (judged offline): Karatsuba-sized products, multi-limb Knuth divisions
+BIG = [("big static_integer<2100> static_integer<2100> [+-*<]", "cnl::static_integer<2100>", "cnl::static_integer<2100>", "+-*<", 1),
+       ("big static_integer<600> static_integer<400> [/]", "cnl::static_integer<600>", "cnl::static_integer<400>", "/", 1),
+       ("big static_integer<300,nearest,saturated,int8> static_integer<200,..int8> [*/]", "cnl::static_integer<300, cnl::nearest_rounding_tag, cnl::saturated_overflow_tag, signed char>",
+        "cnl::static_integer<200, cnl::nearest_rounding_tag, cnl::saturated_overflow_tag, signed char>", "*/", 1),
+       ("big static_number<2100,-30> static_number<2100,-3> [*<]", "cnl::static_number<2100, -30>", "cnl::static_number<2100, -3>", "*<", 1),
+       ("big static_integer<700,native,undefined,int8> static_integer<700,..> [*/%]", "cnl::static_integer<700, cnl::native_rounding_tag, cnl::undefined_overflow_tag, signed char>",
+        "cnl::static_integer<700, cnl::native_rounding_tag, cnl::undefined_overflow_tag, signed char>", "*/", 0)]
 
 PATH = os.path.join(core.VERIF, "matrix", "chains.json")
 ROUND = ["cnl::native_rounding_tag", "cnl::nearest_rounding_tag", "cnl::tie_to_pos_inf_rounding_tag", "cnl::neg_inf_rounding_tag"]
@@ -77,6 +87,28 @@ def gen_chain(rng, idx):
     return desc, stmt
 
 
+def shift_chains():
+    """hand-written chains around run-time shifts (the result type of << cannot widen): x << c, then unary -, * -1, / -1, + x; x >> c"""
+    out = []
+    specs = [("si", 31, 0, 2), ("si", 63, 0, 2), ("si", 15, 0, 1), ("si", 7, 0, 0), ("si", 20, 0, 2), ("sn", 31, -8, 2), ("sn", 15, 3, 1), ("si", 100, 0, 2)]
+    i = 0
+    for kind, d, e, n in specs:
+        for r, o in ((1, 0), (1, 1), (1, 2), (0, 0), (3, 1)):
+            if i % 5 not in (0, 1, 2) and d not in (31, 63):
+                i += 1
+                continue
+            i += 1
+            t = typ(kind, d, e, r, o, n)
+            desc = "shiftchain %s<%d,%d> %s,%s,%s" % (kind, d, e, RNAME[r], ONAME[o], NARROW[n][1])
+            body = ("auto v0 = c11::deep<T0>(x[0]); int c = (int)x[1].mag128(); auto s = c11::lsh(v0, c); auto n1 = c11::neg(s); auto m1 = c11::mul(s, T0{-1}); "
+                    "auto q1 = c11::div(s, T0{-1}); auto a1 = c11::add(s, v0); auto r1 = c11::rsh(v0, c); auto r2 = c11::rsh(s, c);")
+            stmt = ('{ using T0 = %s; vf::Rng rng(vf::mix(vf::env_seed(), vf::hash_str("%s"))); long NR = vf::env_long("VERIF_NRAND", 12); '
+                    'std::vector<vf::X> cs; for (int c = 0; c <= %d; ++c) cs.push_back(vf::X::from_i(c)); std::vector<std::vector<vf::X>> ls{c11::leaves<T0>(rng, NR), cs}; '
+                    'c11::run_chain("%s", c11::Tags{%d, %d}, ls, [&](vf::X const* x) { %s }); }') % (t, desc, d + 2, desc, r, o, body)
+            out.append((desc, stmt))
+    return out
+
+
 def candidates(n=1300):
     rng = random.Random(1111)
     out = []
@@ -108,18 +140,23 @@ def run(tier, seed, only=None):
         cfgs = [only["config"]]
     env = {"VERIF_SEED": str(seed), "VERIF_NRAND": "12" if tier == "quick" else "40", "VERIF_CHAIN_CASES": "3000" if tier == "quick" else "30000"}
     stm = [(k["desc"], k["stmt"]) for k in ks]
+    sc = shift_chains()
+    stm += [s for s in sc if s[0] == only["kernel"]] if only else sc
     jobs = []
     for cfg in cfgs:
         for i, sh in enumerate(core.shard(stm, 1 if only else (48 if tier == "quick" else 96))):
             jobs.append(core.Job("c11-%d" % i, core.tu("c11.h", sh), cfg, env=env, timeout=7200))
+    jobs += big.make_jobs("c11", BIG, tier, seed, cfgs, only)
     core.build_and_run(jobs, "C11")
     for j in jobs:
         res.absorb(j)
+        if getattr(j, "post", None):
+            j.post(res, j)
         if j.died:
             res.inconclusive.append("binary %s[%s] died outside a guarded case (rc=%s)" % (j.name, j.config, j.rc))
     res.extra["chains_generated"] = len(ks)
     res.extra["universe"] = {"instantiable": load()["instantiable"], "not_instantiable_candidates": load()["not_instantiable_count"]}
-    return res.finish(RULE, assumptions=["exact shadow arithmetic on 256-bit rationals (denominators are powers of two except inside a division step)", "division by zero ends a chain (outside the domain)",
+    return res.finish(RULE + big.RULE, assumptions=["exact shadow arithmetic on 256-bit rationals (denominators are powers of two except inside a division step)", "division by zero ends a chain (outside the domain)",
                                          "spurious overflow signals are not violations of this property; they are counted in class_histogram"])
 
 
